@@ -502,7 +502,53 @@ def root_exceptions(ctx, n):
                 pass
 
 
+def after_infinity(ctx, n):
+    """`run()` ends when nothing is left to do - not earlier: activities that have reached the end of time (`time >= inf`)
+    and go on working there (instants, further delays, spawning, flags) are run to completion like at any other time"""
+    import math
+    import usim
+    from usim import time
+    from harness import watch
+    rng = ctx.rng
+    for _ in range(n):
+        k = rng.choice([1, 2, 3])
+        steps = [rng.choice(['instant', 'delay', 'flag', 'spawn']) for _ in range(rng.choice([1, 2, 4]))]
+        case = {'after_infinity': dict(activities=k, steps=steps)}
+        log = []
+
+        async def worker(i):
+            flag = usim.Flag()
+            await (time >= math.inf)
+            log.append((i, 'at infinity', time.now))
+            for j, st in enumerate(steps):
+                if st == 'instant':
+                    await usim.instant
+                elif st == 'delay':
+                    await (time + (1 + i))
+                elif st == 'flag':
+                    await flag.set()
+                    await flag
+                else:
+                    async with usim.Scope() as scope:
+                        scope.do(flag.set(False))
+                log.append((i, j, time.now))
+            return None
+        try:
+            watch.run(*[worker(i) for i in range(k)])
+        except BaseException as e:   # noqa
+            ctx.fail(case, 'raised %r after %r' % (e, log), family='after-infinity')
+            continue
+        ctx.count(case, nontrivial=True)
+        ctx.bump('family:after-infinity')
+        want = sorted([(i, 'at infinity', math.inf) for i in range(k)] + [(i, j, math.inf) for i in range(k) for j in range(len(steps))],
+                      key=repr)
+        if sorted(log, key=repr) != want:
+            ctx.fail(case, '%d activities go on working after the clock reached infinity (%r each): run() returned after %r, '
+                           'expected every step to be executed' % (k, steps, log), family='after-infinity')
+
+
 def run(ctx):
+    after_infinity(ctx, ctx.n(20, 200))
     choreographed_threads(ctx, ctx.n(3, 25))
     root_exceptions(ctx, ctx.n(60, 800))
     # simulations one after the other / nested that share condition objects do not influence each other (family of C01)
